@@ -52,7 +52,15 @@ EXPLANATION = (
     "way: they must hold exactly when bit i&7 of octet len-1-(i>>3) is set. In trx_if_cmd_setfh the proof that a pair precedes "
     "the terminator store does not depend on how the allocation is walked (index, pointer): the loop condition is taken at loop "
     "entry (locals replaced by their unique reaching definitions) and must be a linear comparison in the allocation length that "
-    "holds for every length >= 1.")
+    "holds for every length >= 1. "
+    "A decoder that collects the bitmap octets into one wider integer (in the decoder or in an inline helper of sysinfo.h, which is "
+    "put into the slice like a helper of sysinfo.c) and tests that word is decided by C20.R7: the statements in front of the walk are "
+    "executed for every accepted length and the conditions in front of the output store are evaluated for every bit index on the "
+    "clang AST, in the integer types clang resolved (each promotion / conversion is an explicit cast node): a value is a vector of "
+    "bits, each 0, 1, unknown or the OR of a set of bitmap bits, moved exactly by shifts with known counts, masks, truncation, "
+    "zero- and sign-extension. The conditions must be true exactly when bit i&7 of octet len-1-(i>>3) is set -- decided on the bit "
+    "sets, for all bitmap contents at once -- and no shift on the way may reach the width of its promoted left operand "
+    "(`bits & (1 << i)` with a 32 bit `1`: sign-extended mask for i = 31, undefined for i >= 32).")
 ASSUMPTIONS = [
     "clang 14 parses the sliced function exactly as the layer23 build would (prelude models only declarations: stdint.h, EINVAL sign, struct gsm_sysinfo_freq {uint8_t mask;}, FREQ_TYPE_* values and array extents read from sysinfo.h, LOGP reduced to the evaluation of its value arguments)",
     "int is 32 bit: no counter in the function exceeds 2040, so machine arithmetic coincides with integer arithmetic",
@@ -62,7 +70,8 @@ ASSUMPTIONS = [
     "snprintf returns the untruncated length (C99) and never writes more than its size argument",
     "the bitmap is not modified while it is decoded (const parameter, no store through it, out-parameters do not alias it), so a condition on an octet tested before a forward jump of the walk still holds for the indices the jump leaves out",
     "trx_if_cmd_setfh: cmdp->ma points to an array of cmdp->ma_len elements, so `cmdp->ma + cmdp->ma_len` is a valid one-past-the-end pointer and differs from cmdp->ma exactly when the length is not 0; the length counts array elements, so linear arithmetic on it does not wrap",
-    "a function the decoder calls that has a definition in sysinfo.c is that definition (no other translation unit overrides it); integer conversions at its parameters / result are value preserving unless they narrow to a type smaller than int (then the call is not inlined)",
+    "a function the decoder calls that has a definition in sysinfo.c -- or, when sysinfo.c includes sysinfo.h, an (inline) definition there -- is that definition (no other translation unit overrides it); integer conversions at its parameters / result are value preserving unless they narrow to a type smaller than int (then the call is not inlined)",
+    "C20.R7 (typed word model): integer widths are those of the parse target (char 8, short 16, int 32, long long and uint64_t 64 bit, long as uint64_t's typedef shows); signed integers are two's complement, conversion to a narrower signed type wraps, >> of a negative value is arithmetic and << of a signed value wraps into the sign bit (what gcc and clang define); a shift by a negative count or by a count >= the width of the promoted left operand is undefined (C11 6.5.7) and is reported, not evaluated",
 ]
 
 F_SYS = "src/host/layer23/src/common/sysinfo.c"
@@ -1205,9 +1214,14 @@ def build_slice(L):
     with open(L.unit(F_SYS), "r", encoding="utf-8", errors="surrogateescape") as f:
         src = f.read()
     body, first = slice_function(src, FN)
-    helpers = local_helpers(src, body, {fi[0] for fi in CFile(L, F_SYS).funcs})          # [(name, text, first line)] callees defined in sysinfo.c, callee first
     with open(L.unit(F_HDR), "r", encoding="utf-8", errors="surrogateescape") as f:
-        hdr = blank_strings(strip_comments(f.read()))
+        hdr_raw = f.read()
+    hdr = blank_strings(strip_comments(hdr_raw))
+    # callees with a definition in sysinfo.c, or -- `static inline` -- in sysinfo.h when sysinfo.c includes it
+    origins = [(F_SYS, src, {fi[0] for fi in CFile(L, F_SYS).funcs})]
+    if re.search(r"^[ \t]*#[ \t]*include[ \t]*[<\"]%s[>\"]" % re.escape(F_HDR.split("/include/", 1)[1]), strip_comments(src), re.M):
+        origins.append((F_HDR, hdr_raw, {fi[0] for fi in CFile(L, F_HDR).funcs} - origins[0][2]))
+    helpers = local_helpers(origins, body)          # [(name, text, first line, file)] callee first
     macros, _, mac_lines = const_macros(hdr, src, first)     # unused macros are never expanded: all are handed over verbatim
     ft = {}
     for k, v in read_defines(hdr).items():
@@ -1246,8 +1260,10 @@ def build_slice(L):
                 ext["freq"], ext["hopping"])]
     # helper definitions stand between the prelude and the decoder; real line = slice line + offset of the function
     offs, at = {}, len(pre) + 1
-    for (hn, ht, hfirst) in helpers:
+    origin = {}
+    for (hn, ht, hfirst, hrel) in helpers:
         offs[hn] = hfirst - at
+        origin[hn] = hrel
         pre += ht.split("\n")
         at = len(pre) + 1
     offs[FN] = first - at
@@ -1264,10 +1280,11 @@ def build_slice(L):
     L.fn(F_SYS, FN)
     inlined = inline_helpers(tu, fd, FN, offs)
     for (hn, site) in inlined:
-        L.fn(F_SYS, hn)
-        L.ob("C20.R0", F_SYS, FN, "helper %s() defined in sysinfo.c is analysed as part of the decoder: its body replaces the call `%s` "
+        L.fn(origin.get(hn, F_SYS), hn)
+        L.ob("C20.R0", F_SYS, FN, "helper %s() defined in %s is analysed as part of the decoder: its body replaces the call `%s` "
              "(parameters are never written and stand for side-effect-free arguments, locals renamed apart, the single "
-             "trailing return becomes the assignment of the result)" % (hn, site), "inlined", "inlined", True)
+             "trailing return becomes the assignment of the result)" % (hn, os.path.basename(origin.get(hn, F_SYS)), site),
+             "inlined", "inlined", True)
     fm = FM(tu, fd, line_off=offs[FN], copies=True)
     return fm, {"SERV": ft["FREQ_TYPE_SERV"], "HOPP": ft["FREQ_TYPE_HOPP"], "NFREQ": ext["freq"],
                 "NHOP": ext["hopping"], "hdr": hdr, "inlined": [hn for (hn, _) in inlined]}
@@ -1289,20 +1306,23 @@ def build_slice(L):
 NARROW = ("unsigned char", "char", "signed char", "unsigned short", "short", "_Bool", "bool")
 
 
-def local_helpers(src, body, defined, depth=4):
-    """functions defined in the same source file (names `defined`) that `body` calls (transitively, callee before caller)"""
+def local_helpers(origins, body, depth=4):
+    """functions that `body` calls (transitively, callee before caller) and that have a definition in one of
+    `origins` = [(file, source text, names defined there)] -- sysinfo.c itself, and sysinfo.h for the inline
+    functions it brings into the translation unit.  -> [(name, text, first line, file)]"""
     out, seen = [], {FN}
 
     def visit(text, d):
         for m in re.finditer(r"\b([A-Za-z_]\w*)\s*\(", blank_strings(strip_comments(text))):
             nm = m.group(1)
-            if nm in defined and nm not in seen:
+            hit = [(rel, src) for (rel, src, defined) in origins if nm in defined]
+            if hit and nm not in seen:
                 seen.add(nm)
                 if d >= depth:
                     raise AnalysisError("%s(): helper calls nested deeper than %d" % (FN, depth))
-                ht, hfirst = slice_function(src, nm)
+                ht, hfirst = slice_function(hit[0][1], nm)
                 visit(ht, d + 1)
-                out.append((nm, ht, hfirst))
+                out.append((nm, ht, hfirst, hit[0][0]))
     visit(body, 0)
     return out
 
@@ -2108,13 +2128,17 @@ def r4_order(L, D):
                     unread.append(t)
                 continue
             matoms.append((t, p))
-        if not matoms and unread:
-            raise AnalysisError("%s(): the condition `%s` under which an entry is emitted cannot be classified" % (FN, X.show(unread[0])[:80]))
+        word = not matoms and bool(unread)
         K1 = "an entry is emitted only under exactly one test of a bitmap bit, taken when the bit is set"
         K2 = "bit index i of the bitmap is octet %s-1-(i>>3), bit i&7 (TS 44.018 10.5.2.21: LSB of the last octet first)" % D.P_LEN
         W2 = "octet %s-1-(i>>3), bit i&7" % D.P_LEN
         shapes = [bit_shape(t, D.P_MA) for (t, p) in matoms]
-        if len(matoms) <= 1 and None not in shapes:
+        if word:
+            # no condition reads the bitmap octets themselves, but one reads something the octet model cannot follow
+            # (a word into which the octets were collected): decided by typed evaluation on the clang AST (C20.R7);
+            # what cannot be evaluated there gives no verdict, and the other obligations of the walk are still checked
+            L.stage(r7_word, L, D, H, l2, cnt, fm.line(hw.ast))
+        elif len(matoms) <= 1 and None not in shapes:
             tests = [sh + (p,) for sh, (t, p) in zip(shapes, matoms)]
             L.ob(R, F_SYS, FN, K1,
                  "1 test, bit set", "%d tests%s" % (len(tests), "" if all(x[2] for x in tests) else ", taken when the bit is clear"),
@@ -2426,6 +2450,652 @@ def bit_shape(t, ma):
         if is_ma(a):
             return (a[2], X.C(0))
     return None
+
+
+# ============================================================ typed word model
+#
+# The decoder may collect the bitmap octets into one wider integer (`bits = (bits << 8) | ma[k]`, possibly in an
+# inline helper of sysinfo.h) and test that word instead of an octet.  Whether such a test selects bit i of the
+# bitmap depends on the WIDTHS in which the shifts, masks and conversions are carried out: `bits & (1 << i)` with a
+# 32 bit `1` is not the test of bit i of a 64 bit word.  The untyped terms of exprnf cannot express that, so these
+# conditions are evaluated on the clang AST itself, in the types clang resolved (every promotion and conversion is an
+# explicit ImplicitCastExpr there), over the same finite domain as the other rules -- every accepted length x every
+# bit index of the walk.  A value is a vector of bits, each of them 0, 1, unknown, or the OR of a set of bitmap bits
+# (octet k, bit j); shifts by a known count, & | ^ with known masks, truncation, zero- and sign-extension move such
+# bits around exactly, everything else yields `unknown`.  The word itself is obtained by executing the statements in
+# front of the walk for the concrete length (loops with decidable conditions are unrolled; whatever hangs on an
+# undecidable condition is forgotten).  No octet value is enumerated and nothing is compiled or run.
+
+class CannotFold(Exception):
+    """the word model does not apply / cannot evaluate (-> no verdict)"""
+
+
+class Undefined(Exception):
+    """the evaluation executes a shift whose behaviour is undefined (negative count / count >= width of the left operand)"""
+
+
+class Uncertain(Exception):
+    """a jump (break / continue / return) hangs on a condition that cannot be decided"""
+
+
+C_INT_TYPES = {"_Bool": (8, False), "bool": (8, False), "char": (8, True), "signed char": (8, True), "unsigned char": (8, False),
+               "short": (16, True), "unsigned short": (16, False), "int": (32, True), "unsigned int": (32, False),
+               "unsigned": (32, False), "long long": (64, True), "unsigned long long": (64, False),
+               "int8_t": (8, True), "uint8_t": (8, False), "int16_t": (16, True), "uint16_t": (16, False),
+               "int32_t": (32, True), "uint32_t": (32, False), "int64_t": (64, True), "uint64_t": (64, False)}
+
+
+def int_type(tu, t):
+    """(width, signed) of the integer type clang resolved for a node / declaration (type dict or text); None if it
+    is not an integer type.  `long` has the width the parse target gives it (read off the typedef of uint64_t)."""
+    if isinstance(t, dict):
+        t = t.get("desugaredQualType") or t.get("qualType") or ""
+    for _ in range(8):
+        t = " ".join(re.sub(r"\b(const|volatile|register)\b", " ", t or "").split())
+        if t in C_INT_TYPES:
+            return C_INT_TYPES[t]
+        if t in ("long", "unsigned long"):
+            return (64 if _typedef_text(tu, "uint64_t") == "unsigned long" else 32, t == "long")
+        td = tu.typedefs.get(t)
+        if td is None:
+            return None
+        t = td.get("type", {}).get("desugaredQualType") or td.get("type", {}).get("qualType")
+    return None
+
+
+def _typedef_text(tu, name):
+    """the type a typedef name stands for in the end"""
+    for _ in range(8):
+        td = tu.typedefs.get(name)
+        if td is None:
+            return name
+        name = " ".join((td.get("type", {}).get("desugaredQualType") or td.get("type", {}).get("qualType") or "").split())
+    return name
+
+
+def b_and(x, y):
+    if x == 0 or y == 0:
+        return 0
+    if x == 1:
+        return y
+    if y == 1:
+        return x
+    if x is None or y is None:
+        return None
+    return x if x == y else None
+
+
+def b_or(x, y):
+    if x == 1 or y == 1:
+        return 1
+    if x == 0:
+        return y
+    if y == 0:
+        return x
+    if x is None or y is None:
+        return None
+    return x | y
+
+
+def b_xor(x, y):
+    if x == 0:
+        return y
+    if y == 0:
+        return x
+    if x is None or y is None:
+        return None
+    if x == y:
+        return 0            # the same function of the bitmap (1 ^ 1, S ^ S)
+    return None
+
+
+def b_not(x):
+    return 1 - x if x in (0, 1) else None
+
+
+class W:
+    """integer value of width w: b[k] is bit k -- 0, 1, None (unknown) or a frozenset of bitmap bits (octet, bit)
+    whose OR it is"""
+    __slots__ = ("w", "s", "b")
+
+    def __init__(self, w, s, b):
+        self.w, self.s, self.b = w, s, b
+
+    @staticmethod
+    def const(t, v):
+        return W(t[0], t[1], [(v >> k) & 1 for k in range(t[0])])
+
+    @staticmethod
+    def top(t):
+        t = t or (64, False)
+        return W(t[0], t[1], [None] * t[0])
+
+    def concrete(self):
+        return all(x is not None and not isinstance(x, frozenset) for x in self.b)
+
+    def value(self):
+        v = sum(x << k for k, x in enumerate(self.b))
+        return v - (1 << self.w) if self.s and self.b[-1] else v
+
+    def convert(self, t):
+        if t is None:
+            return W.top(None)
+        w, s = t
+        if w <= self.w:
+            return W(w, s, self.b[:w])
+        return W(w, s, self.b + [self.b[-1] if self.s else 0] * (w - self.w))
+
+    def truth(self):
+        """0 / 1 / None / frozenset: value != 0"""
+        r = 0
+        for x in self.b:
+            r = b_or(r, x)
+            if r == 1:
+                return 1
+        if any(x is None for x in self.b):
+            return None
+        return r
+
+
+def truth_word(t):
+    return W(32, True, [t] + [0] * 31)
+
+
+def written_names(st):
+    """locals written (or declared) somewhere inside the statement / expression"""
+    out = set()
+    for x in walk(st):
+        k = kind(x)
+        if k == "VarDecl":
+            out.add(x.get("name"))
+        elif (k == "BinaryOperator" and x.get("opcode") == "=") or k == "CompoundAssignOperator" or \
+                (k == "UnaryOperator" and x.get("opcode") in ("++", "--")):
+            t = strip(kids(x)[0])
+            if kind(t) == "DeclRefExpr":
+                out.add(t.get("referencedDecl", {}).get("name"))
+    return out
+
+
+class WordEval:
+    """typed evaluation of expressions / execution of statements for one concrete bitmap length"""
+
+    def __init__(self, fm, D, lenv):
+        self.fm, self.D, self.tu, self.lenv = fm, D, fm.tu, lenv
+        self.steps = 0
+        self.vtype = {}
+        for nm, vd in fm.locals.items():
+            self.vtype[nm] = int_type(self.tu, vd.get("type", {}))
+        for p in self.tu.fparams(fm.f):
+            self.vtype[p.get("name")] = int_type(self.tu, p.get("type", {}))
+
+    def typ(self, n):
+        return int_type(self.tu, n.get("type", {}))
+
+    # -- expressions --------------------------------------------------------------
+    def ev(self, e, look, store=None):
+        self.steps += 1
+        if self.steps > 400000:
+            raise CannotFold("evaluation step limit")
+        k = kind(e)
+        ks = kids(e)
+        if k in ("ParenExpr", "ConstantExpr"):
+            return self.ev(ks[0], look, store)
+        if k in ("ImplicitCastExpr", "CStyleCastExpr"):
+            v = self.ev(ks[0], look, store)
+            ck = e.get("castKind")
+            if ck in ("LValueToRValue", "NoOp", "ToVoid"):
+                return v
+            if ck == "IntegralCast":
+                return v.convert(self.typ(e))
+            if ck == "IntegralToBoolean":
+                return W(8, False, [v.truth()] + [0] * 7)
+            return W.top(self.typ(e))
+        if k == "IntegerLiteral":
+            return W.const(self.typ(e) or (32, True), int(e.get("value", "0"), 0))
+        if k == "CharacterLiteral":
+            return W.const(self.typ(e) or (32, True), int(e.get("value", 0)))
+        if k == "UnaryExprOrTypeTraitExpr":
+            v = self.tu.fold(e)
+            return W.top(self.typ(e)) if v is None else W.const(self.typ(e) or (64, False), v)
+        if k == "DeclRefExpr":
+            rd = e.get("referencedDecl", {})
+            if rd.get("kind") == "EnumConstantDecl":
+                v = self.tu.fold(e)
+                return W.top(self.typ(e)) if v is None else W.const(self.typ(e) or (32, True), v)
+            nm = rd.get("name")
+            t = self.vtype.get(nm)
+            if t is None:
+                return W.top(self.typ(e))
+            if nm == self.D.P_LEN:
+                return W.const(t, self.lenv)
+            v = look(nm)
+            return W.top(t) if v is None else v.convert(t)
+        if k == "ArraySubscriptExpr":
+            base = strip(ks[0])
+            idx = self.ev(ks[1], look, store)
+            if kind(base) == "DeclRefExpr" and base.get("referencedDecl", {}).get("name") == self.D.P_MA and idx.concrete():
+                return self.octet(idx.value())
+            if kind(base) != "DeclRefExpr":
+                self.ev(ks[0], look, store)
+            return W.top(self.typ(e))
+        if k == "UnaryOperator":
+            return self.unary(e, ks[0], look, store)
+        if k == "BinaryOperator":
+            return self.binary(e, ks[0], ks[1], look, store)
+        if k == "CompoundAssignOperator":
+            tgt = strip(ks[0])
+            r = self.ev(ks[1], look, store)
+            if kind(tgt) != "DeclRefExpr":
+                self.ev(ks[0], look, store)
+                return W.top(self.typ(e))
+            nm = tgt.get("referencedDecl", {}).get("name")
+            cur = self.ev(ks[0], look, store)
+            ct = int_type(self.tu, e.get("computeLHSType", {})) or self.typ(e)
+            rt = int_type(self.tu, e.get("computeResultType", {})) or ct
+            op = e.get("opcode", "")[:-1]
+            v = self.arith(e, op, cur.convert(ct), r if op in ("<<", ">>") else r.convert(ct), rt).convert(self.vtype.get(nm))
+            self.put(store, nm, v)
+            return v
+        if k == "ConditionalOperator":
+            c = self.ev(ks[0], look, store).truth()
+            if c in (0, 1):
+                return self.ev(ks[1] if c else ks[2], look, store)
+            a, b = self.ev(ks[1], look, None), self.ev(ks[2], look, None)
+            return a if (a.w, a.b) == (b.w, b.b) else W.top(self.typ(e))
+        if k in ("CallExpr", "StmtExpr"):
+            raise CannotFold("`%s` is a call" % ctext(e)[:40])
+        for x in ks:
+            if kind(x) and kind(x).endswith(("Expr", "Operator", "Literal")):
+                self.ev(x, look, store)
+        return W.top(self.typ(e))
+
+    def octet(self, k):
+        if not 0 <= k < self.lenv:
+            return W.top((8, False))          # the read itself is the business of the bounds obligations
+        return W(8, False, [frozenset([(k, j)]) for j in range(8)])
+
+    def put(self, store, nm, v):
+        if store is None:
+            raise CannotFold("`%s` is written inside a condition" % nm)
+        store(nm, v)
+
+    def unary(self, e, x, look, store):
+        op = e.get("opcode")
+        t = self.typ(e)
+        if op in ("++", "--"):
+            tgt = strip(x)
+            if kind(tgt) != "DeclRefExpr":
+                self.ev(x, look, store)
+                return W.top(t)
+            nm = tgt.get("referencedDecl", {}).get("name")
+            old = self.ev(x, look, store)
+            vt = self.vtype.get(nm)
+            new = W.const(vt, old.value() + (1 if op == "++" else -1)) if old.concrete() and vt else W.top(vt)
+            self.put(store, nm, new)
+            return old if e.get("isPostfix") else new
+        if op == "*":
+            tgt = strip(x)
+            if kind(tgt) == "DeclRefExpr" and tgt.get("referencedDecl", {}).get("name") == self.D.P_MA:
+                return self.octet(0)
+            self.ev(x, look, store)
+            return W.top(t)
+        if op == "&":
+            return W.top(t)
+        v = self.ev(x, look, store)
+        if op == "!":
+            return truth_word(b_not(v.truth()))
+        if op == "~":
+            return W(v.w, v.s, [b_not(b) for b in v.b])
+        if op == "-":
+            return W.const(t, -v.value()) if v.concrete() and t else W.top(t)
+        if op == "+":
+            return v
+        return W.top(t)
+
+    def binary(self, e, a, b, look, store):
+        op = e.get("opcode")
+        t = self.typ(e)
+        if op == "=":
+            tgt = strip(a)
+            v = self.ev(b, look, store)
+            if kind(tgt) == "DeclRefExpr" and tgt.get("referencedDecl", {}).get("kind") in ("VarDecl", "ParmVarDecl"):
+                nm = tgt.get("referencedDecl", {}).get("name")
+                v = v.convert(self.vtype.get(nm)) if self.vtype.get(nm) else W.top(None)
+                self.put(store, nm, v)
+            else:
+                self.ev(a, look, store)
+            return v
+        if op == ",":
+            self.ev(a, look, store)
+            return self.ev(b, look, store)
+        if op in ("&&", "||"):
+            x = self.ev(a, look, store).truth()
+            if x in (0, 1) and (x == 1) == (op == "||"):
+                return truth_word(x)
+            if x in (0, 1):
+                return truth_word(self.ev(b, look, store).truth())
+            y = self.ev(b, look, None).truth()
+            return truth_word(b_or(x, y) if op == "||" else (0 if y == 0 else x if y == 1 or x == y else None))
+        l, r = self.ev(a, look, store), self.ev(b, look, store)
+        if op in ("==", "!=", "<", ">", "<=", ">="):
+            if l.concrete() and r.concrete():
+                x, y = l.value(), r.value()
+                return truth_word(int({"==": x == y, "!=": x != y, "<": x < y, ">": x > y, "<=": x <= y, ">=": x >= y}[op]))
+            if op in ("==", "!="):
+                for (p, q) in ((l, r), (r, l)):
+                    if q.concrete() and q.value() == 0:
+                        return truth_word(p.truth() if op == "!=" else b_not(p.truth()))
+            return truth_word(None)
+        return self.arith(e, op, l, r, t)
+
+    def arith(self, e, op, l, r, t):
+        if t is None:
+            return W.top(None)
+        if op in ("<<", ">>"):
+            l = l.convert(t)
+            if not r.concrete():
+                return W.top(t)
+            n = r.value()
+            if n < 0 or n >= l.w:
+                raise Undefined("`%s`: a %d bit %s operand is shifted by %d (the C standard leaves a shift by a count >= the width of "
+                                "the promoted left operand undefined, 6.5.7)" % (ctext(e)[:60], l.w, "signed" if l.s else "unsigned", n))
+            if op == "<<":
+                return W(l.w, l.s, ([0] * n + l.b)[:l.w])
+            return W(l.w, l.s, l.b[n:] + [l.b[-1] if l.s else 0] * n)
+        l, r = l.convert(t), r.convert(t)
+        if op in ("&", "|", "^"):
+            f = {"&": b_and, "|": b_or, "^": b_xor}[op]
+            return W(t[0], t[1], [f(x, y) for x, y in zip(l.b, r.b)])
+        if l.concrete() and r.concrete():
+            x, y = l.value(), r.value()
+            if op in ("/", "%"):
+                if y == 0:
+                    raise CannotFold("`%s` divides by 0" % ctext(e)[:60])
+                q = abs(x) // abs(y) * (1 if (x < 0) == (y < 0) else -1)
+                return W.const(t, q if op == "/" else x - q * y)
+            if op in ("+", "-", "*"):
+                return W.const(t, x + y if op == "+" else x - y if op == "-" else x * y)
+        return W.top(t)
+
+    # -- statements in front of the walk ------------------------------------------
+    def state_at(self, target):
+        """values of the integer locals when `target` (a statement of the function) is reached for this length;
+        None when it is not reached"""
+        env = {}
+        body = self.tu.body(self.fm.f)
+        for x in walk(body):
+            if kind(x) in ("GotoStmt", "LabelStmt", "IndirectGotoStmt"):
+                raise CannotFold("the decoder uses goto")
+        r = self.ex(body, env, target, False)
+        if r == "reached":
+            return env
+        if r in ("return", "dead"):
+            return None
+        raise CannotFold("the bitmap walk is not reached by executing the statements in front of it")
+
+    def has(self, st, target):
+        return any(x is target for x in walk(st))
+
+    def havoc(self, st, env):
+        for nm in written_names(st):
+            env[nm] = None
+
+    def uncertain(self, st, env, inloop):
+        ks = {kind(x) for x in walk(st)}
+        if inloop and ks & {"BreakStmt", "ContinueStmt", "ReturnStmt"}:
+            raise Uncertain()
+        self.havoc(st, env)
+
+    def ex(self, st, env, target, inloop):
+        self.steps += 1
+        if self.steps > 400000:
+            raise CannotFold("execution step limit")
+        if st is target:
+            return "reached"
+        k = kind(st)
+        look, store = env.get, env.__setitem__
+        if k == "CompoundStmt":
+            for x in kids(st):
+                r = self.ex(x, env, target, inloop)
+                if r:
+                    return r
+            return None
+        if k == "DeclStmt":
+            for d in kids(st):
+                if kind(d) != "VarDecl":
+                    continue
+                t = self.vtype.get(d.get("name"))
+                init = [c for c in kids(d) if kind(c) and not kind(c).endswith("Attr")]
+                v = self.ev(init[-1], look, store) if init and t else None
+                env[d.get("name")] = v.convert(t) if v is not None else None
+            return None
+        if k == "IfStmt":
+            inner = st["inner"]
+            els = st.get("hasElse", False)
+            cond, then, other = (inner[-3], inner[-2], inner[-1]) if els else (inner[-2], inner[-1], None)
+            inside = self.has(st, target)
+            if inside and self.has(cond, target):
+                raise CannotFold("the bitmap walk stands inside a condition")
+            c = self.ev(cond, look, store).truth()
+            if inside:
+                br, need = (then, 1) if self.has(then, target) else (other, 0)
+                if c in (0, 1) and c != need:
+                    return "dead"
+                return self.ex(br, env, target, inloop)
+            if c in (0, 1):
+                br = then if c else other
+                return self.ex(br, env, target, inloop) if br else None
+            self.uncertain(st, env, inloop)
+            return None
+        if k in ("ForStmt", "WhileStmt"):
+            if self.has(st, target):
+                raise CannotFold("the bitmap walk is nested in another loop")
+            inner = st["inner"]
+            init, cond, inc, body = (inner[0], inner[2], inner[3], inner[4]) if k == "ForStmt" else (None, inner[-2], None, inner[-1])
+            try:
+                if init:
+                    self.ex(init, env, target, inloop)
+                for _ in range(5000):
+                    c = self.ev(cond, look, store).truth() if cond else 1
+                    if c == 0:
+                        return None
+                    if c != 1:
+                        raise Uncertain()
+                    r = self.ex(body, env, target, True)
+                    if r == "break":
+                        return None
+                    if r == "return":
+                        return r
+                    if inc:
+                        self.ev(inc, look, store)
+                raise Uncertain()
+            except Uncertain:
+                self.havoc(st, env)
+                return None
+        if k == "ReturnStmt":
+            for x in kids(st):
+                self.ev(x, look, store)
+            return "return"
+        if k == "BreakStmt":
+            return "break"
+        if k == "ContinueStmt":
+            return "continue"
+        if k == "NullStmt":
+            return None
+        if k in ("DoStmt", "SwitchStmt", "CaseStmt", "DefaultStmt", "AttributedStmt"):
+            if self.has(st, target):
+                raise CannotFold("the bitmap walk is nested in a %s" % k)
+            self.uncertain(st, env, inloop)
+            return None
+        self.ev(st, look, store)
+        return None
+
+
+def bit_index(v, src):
+    """bit index (TS 44.018 10.5.2.21 numbering) of bitmap bit (octet, bit) in a v-octet bitmap"""
+    return 8 * (v - 1 - src[0]) + src[1]
+
+
+def fmt_bits(v, srcs):
+    ix = sorted(bit_index(v, s) for s in srcs)
+    if len(ix) > 2 and ix == list(range(ix[0], ix[-1] + 1)):
+        return "bit indexes %d..%d" % (ix[0], ix[-1])
+    return "bit index%s %s" % ("es" if len(ix) != 1 else "", ", ".join(str(x) for x in ix[:8]) + (", ..." if len(ix) > 8 else ""))
+
+
+def r7_word(L, D, H, l2, cnt, hline):
+    """C20.R7 -- clause "the decoded hopping list contains exactly the cell-allocation channels whose bit is set",
+    for a decoder that tests a word into which the bitmap octets were collected (see "typed word model" above).
+    The conditions that dominate the output store and that the octet model of C20.R4 cannot read are evaluated in
+    the types clang resolved, for every accepted length v and every bit index i of the walk.  Each yields the set of
+    bitmap bits whose OR it is; an entry is emitted under the conjunction of these ORs (and NORs), which equals
+    "bit i&7 of octet v-1-(i>>3) is set" exactly when every OR contains that bit, one OR is that bit alone and no NOR
+    is left.  Otherwise a bitmap exists for which a channel is emitted although its bit is clear, or dropped although
+    it is set -- the counterexample is printed.  A shift whose count reaches the width of its (promoted) left operand
+    is undefined: the test then selects no particular bit, so the decoder does not decide bit i for that bitmap
+    length (violation as well; `1 << i` with a 32 bit `1` and i up to 63).  Conditions that cannot be evaluated give no
+    verdict."""
+    fm = D.fm
+    R = "C20.R7"
+    b = l2["var"]
+    if l2["skips"]:
+        raise AnalysisError("%s(): the walk over a collected word jumps over bit indices (`%s`): not modelled" % (
+            FN, ctext(l2["skips"][0]["ast"])[:40]))
+    region = l2["region"]
+    known = {b, cnt, D.P_LEN, D.P_SI4} | fm.invariant
+    sel = []
+    for (c, l) in fm.g.guards(H):
+        if c.kind != "cond" or not getattr(c, "cond", None) or not isinstance(l, bool):
+            if getattr(c, "cond", None) is not None:
+                raise AnalysisError("%s(): the output store is guarded by a %s on `%s` (only if / loop conditions are evaluated)" % (
+                    FN, c.kind, ctext(c.cond)[:40]))
+            continue
+        for (e, p) in conj_atoms(c.cond, l):
+            t, p2 = fm.norm(e, p)
+            if fm.copies:
+                t = fm.subst_temps(t, c)
+            if X.V(D.P_MA) in subterms(t) or not free_vars(t) <= known:
+                sel.append((e, p, c, l))
+    L.floor(R, "conditions in front of the output store that are evaluated in the word model", len(sel), 1)
+    inside = []
+    for (e, p, c, l) in sel:
+        if c is l2["cond"]:
+            raise AnalysisError("%s(): the bound of the bitmap walk `%s` cannot be evaluated" % (FN, ctext(e)[:50]))
+        if c.id in region:
+            if not fm.pre_increment(l2, c):
+                raise AnalysisError("%s(): `%s` is tested after the increment of `%s`" % (FN, ctext(e)[:50], b))
+            inside.append(True)
+        else:
+            # tested before the walk: what it read must still hold when the walk starts
+            for nm in {x.get("referencedDecl", {}).get("name") for x in walk(e) if kind(x) == "DeclRefExpr"}:
+                if any(w.node.id in fm.reach_succ(c, label=l) for w in fm.writes.get(nm, [])) or nm in fm.addr:
+                    raise AnalysisError("%s(): `%s` is tested before the walk and `%s` changes afterwards" % (FN, ctext(e)[:50], nm))
+            inside.append(False)
+    wr_in = {v for v, ws in fm.writes.items() if any(w.node.id in region for w in ws)}
+    tests = " && ".join(("%s" if p else "!(%s)") % ctext(e)[:60] for (e, p, c, l) in sel)
+    bad = undef = None
+    npts = 0
+    for v in fm.domain(H, D.P_LEN):
+        M = WordEval(fm, D, v)
+        try:
+            env0 = M.state_at(l2["stmt"])
+        except Undefined as u:
+            undef = undef or "%s = %d: %s" % (D.P_LEN, v, u)
+            continue
+        except CannotFold as u:
+            raise AnalysisError("%s(): the statements in front of the bitmap walk cannot be evaluated (%s)" % (FN, u))
+        if env0 is None:
+            continue
+        btype = M.vtype.get(b)
+        if btype is None:
+            raise AnalysisError("%s(): loop variable `%s` is not an integer" % (FN, b))
+
+        def look_at(at, i, depth=0):
+            def look(nm):
+                if nm == b:
+                    return W.const(btype, i)
+                if nm not in wr_in:
+                    return env0.get(nm)
+                # written inside the walk: a temporary of this iteration (one definition, in the loop, dominating the use)
+                if depth > 6 or nm in fm.addr or nm in fm.dups:
+                    return None
+                defs = fm.reaching_defs(nm, at)
+                if len(defs) != 1 or defs[0] == "undef" or defs[0].how not in ("init", "assign"):
+                    return None
+                d = defs[0]
+                if d.node.id not in region or d.node is l2["cond"] or d.node is at or not fm.g.dominates(d.node, at) or \
+                        not fm.pre_increment(l2, d.node) or not fm._readonly(d.val):
+                    return None
+                return M.ev(d.val, look_at(d.node, i, depth + 1))
+            return look
+        for i in range(l2["init"], fm.loop_hi(l2, {D.P_LEN: v})):
+            spec = (v - 1 - (i >> 3), i & 7)
+            pos, neg, dead = [], [], False
+            try:
+                for (e, p, c, l), ins in zip(sel, inside):
+                    # !x, x == 0, x != 0 at the top of the atom only change the polarity
+                    n = e
+                    while True:
+                        while kind(n) in ("ParenExpr", "ConstantExpr"):
+                            n = kids(n)[0]
+                        if kind(n) == "UnaryOperator" and n.get("opcode") == "!":
+                            n, p = kids(n)[0], not p
+                            continue
+                        break
+                    look = look_at(c, i) if ins else env0.get
+                    if kind(n) == "BinaryOperator" and n.get("opcode") in ("==", "!="):
+                        x, y = M.ev(kids(n)[0], look), M.ev(kids(n)[1], look)
+                        z = [q for (q, o) in ((x, y), (y, x)) if o.concrete() and o.value() == 0]
+                        t = z[0].truth() if z else M.binary(n, kids(n)[0], kids(n)[1], look, None).truth()
+                        if z and n.get("opcode") == "==":
+                            p = not p
+                    else:
+                        t = M.ev(n, look).truth()
+                    if t is None:
+                        raise AnalysisError("%s(): the condition `%s` under which an entry is emitted cannot be evaluated as a function of "
+                                            "the bitmap (for %s = %d, bit index %d)" % (FN, ctext(e)[:60], D.P_LEN, v, i))
+                    if t in (0, 1):
+                        if bool(t) != p:
+                            dead = True
+                    else:
+                        (pos if p else neg).append((t, e))
+            except Undefined as u:
+                undef = undef or "bit index %d of a %d-octet bitmap: %s" % (i, v, u)
+                continue
+            except CannotFold as u:
+                raise AnalysisError("%s(): the conditions `%s` under which an entry is emitted cannot be evaluated (%s)" % (FN, tests[:80], u))
+            npts += 1
+            if bad is not None:
+                continue
+            where = "bit index %d of a %d-octet bitmap" % (i, v)
+            if dead:
+                bad = "%s: no entry is ever emitted (the conditions cannot hold), so the channel is dropped when the bit is set" % where
+            elif neg:
+                t, e = neg[0]
+                bad = "%s: the entry is not emitted when %s is set (`%s` must be false)" % (where, fmt_bits(v, t), ctext(e)[:50])
+            elif not pos:
+                bad = "%s: an entry is emitted whatever the bitmap holds" % where
+            else:
+                miss = [(t, e) for (t, e) in pos if spec not in t]
+                if miss:
+                    bad = "%s: `%s` tests %s instead -- the channel is dropped when only bit index %d is set" % (
+                        where, ctext(miss[0][1])[:50], fmt_bits(v, miss[0][0]), i)
+                elif not any(t == frozenset([spec]) for (t, e) in pos):
+                    extra = set.intersection(*[set(t) for (t, e) in pos]) - {spec}
+                    others = extra or (set(pos[0][0]) - {spec})
+                    bad = "%s: `%s` also holds when the bit is clear and %s set (it is true for any of %s), so a channel whose bit is clear is emitted" % (
+                        where, ctext(pos[0][1])[:50], fmt_bits(v, [sorted(others, key=lambda s: bit_index(v, s))[0]]) + " is",
+                        fmt_bits(v, pos[0][0]))
+    W2 = "octet %s-1-(i>>3), bit i&7, and nothing else" % D.P_LEN
+    L.floor(R, "points (bitmap length x bit index) at which the emission conditions were evaluated", npts, 1)
+    L.ob(R, F_SYS, FN, "the conditions over the collected bitmap word under which an entry is emitted, evaluated in the operand types "
+         "clang resolved (widths of shifts, masks and conversions), hold exactly when bit i of the bitmap is set "
+         "(TS 44.018 10.5.2.21: octet %s-1-(i>>3), bit i&7) -- for every accepted length and every bit index of the walk" % D.P_LEN,
+         W2, bad or W2, bad is None, hline)
+    L.ob(R, F_SYS, FN, "every shift executed while the bitmap word is collected and tested is defined: the count stays below the width "
+         "of the promoted left operand for every accepted length and every bit index 0 .. 8*%s-1 (otherwise the test selects no "
+         "particular bit)" % D.P_LEN,
+         "shift count < width of the shifted operand", undef or "shift count < width of the shifted operand", undef is None, hline)
 
 
 # ============================================================== caller slices
